@@ -62,7 +62,7 @@ func TestC15(t *testing.T) {
 		mc := NewMachine("C15", sch, column.Options{Writer: multiLogger{log, ch}})
 		defer mc.Close()
 		defer mc.Guard(t)
-		cfg := TxnCfg{Prop: "C15", MaxSteps: 10, Rollback: true, FailInsert: true, Deletes: true, Inserts: true, Merges: true, OwnUpdates: true, KeyOps: true, Direct: true,
+		cfg := TxnCfg{Prop: "C15", MaxSteps: 10, Peeks: true, Rollback: true, FailInsert: true, Deletes: true, Inserts: true, Merges: true, OwnUpdates: true, KeyOps: true, Direct: true,
 			NoStoreOnDel: KFActive("f11-store-and-delete-same-txn"), NoOpAfterLenMerge: KFActive("f15-difflen-merge-reorder")}
 		sc := newStreamChecker()
 		interesting := false
@@ -173,7 +173,7 @@ func TestC15Snapshot(t *testing.T) {
 		defer mc.Close()
 		defer mc.Guard(t)
 		defer column.SetVerifHook(nil)
-		cfg := TxnCfg{Prop: "C15", MaxSteps: 4, Deletes: true, Inserts: true, Merges: true, NoStoreOnDel: KFActive("f11-store-and-delete-same-txn"),
+		cfg := TxnCfg{Prop: "C15", MaxSteps: 4, Peeks: true, Deletes: true, Inserts: true, Merges: true, NoStoreOnDel: KFActive("f11-store-and-delete-same-txn"),
 			NoOpAfterLenMerge: KFActive("f15-difflen-merge-reorder")}
 		switch rapid.IntRange(0, 2).Draw(t, "layout") {
 		case 0:
